@@ -29,6 +29,11 @@ var robustCorpus = []string{
 	"goroutine 1 [running]:\n.()\n\t/a.go:1\n",
 	"goroutine 1 [running]:\n/.()\n\t/a.go:1\n",
 	"goroutine 1 [running]:\na/b.()\n\t/a.go:1\n",
+	// ids at and beyond the 18-digit limit of atou, first and later headers
+	"goroutine 18446744073709551615 [running]:\nmain.f()\n\t/a.go:1\n",
+	"x\n  goroutine 1234567890123456789 [running]:\nmain.f()\n\t/a.go:1\n\ngoroutine 2 [select]:\nmain.g()\n\t/b.go:2\n",
+	"goroutine 1 [running]:\nmain.f()\n\t/a.go:1\n\ngoroutine 1234567890123456789 [running]:\nmain.g()\n\t/b.go:2\nend\n",
+	"goroutine 123456789012345678 [running]:\nmain.f()\n\t/a.go:1234567890123456789\n",
 }
 
 // renderAll aggregates at every level and renders as text and HTML.
@@ -198,6 +203,17 @@ func runC03(prop string, res *Result, pool *DrvPool, r *Rng) {
 		if i < 3 {
 			res.Sample(map[string]interface{}{"input": clip(m)})
 		}
+	}
+	// constructed snapshots: same frames with arguments of different shapes,
+	// names, flags - what a scan cannot produce but Aggregate must survive
+	for i := 0; i < countN(res.Tier, 600, 20000); i++ {
+		gs := GenSnapshot(r, 10)
+		snap := &stack.Snapshot{Goroutines: sGs(gs)}
+		res.Eval(jsonStr(gs), true)
+		if what, p := renderAll(snap); p != nil {
+			res.Violation(Finding{Stream: "render", What: fmt.Sprintf("constructed snapshot: %s panicked: %v", what, p), Op: map[string]interface{}{"op": "agg", "gs": gs, "lvl": 3, "oracle": 0}})
+		}
+		res.Count("constructed-snapshots")
 	}
 	// doubling: time stays roughly linear (supporting evidence only)
 	unit := GenCfg(NewRng(3)).Dump(GenDump(NewRng(3), 6, 6)) + "\n"
